@@ -251,6 +251,8 @@ def drive(tier):
 def run(tier):
     rep = Report("C19", tier)
     rep.add_mc("MC_Rpc", vlib.run_mc("MC_Rpc", cfg="MC_Rpc" if tier == "quick" else "MC_Rpc_thorough"))
+    import replay_rpc
+    replay_rpc.replay(rep, tier)            # specification -> code: TLC's behaviours performed on the implementation
     recs, nsecond, ndiff = vlib.second_pass(drive, tier)
     rep.cov["second_pass_calls"], rep.cov["second_pass_differing"] = nsecond, ndiff
     mm = vlib.validate("Trace_Rpc", recs)
@@ -277,4 +279,8 @@ def run(tier):
 
 
 def replay(path):
+    d_ = json.load(open(path))
+    if d_["record"].get("op") == "rpc.replay":
+        import replay_rpc
+        return replay_rpc.replay_record(d_)
     return vlib.replay_file("Trace_Rpc", path)
